@@ -337,6 +337,14 @@ func (c *Ctx) Cmp(op string, a, b *Term) *Term {
 			return c.ff
 		}
 	}
+	// canonical form: <= is expressed as the negation of the swapped <, so that syntactically
+	// complementary comparisons are recognised as such
+	if op == "bvule" {
+		return c.Not(c.Cmp("bvult", b, a))
+	}
+	if op == "bvsle" {
+		return c.Not(c.Cmp("bvslt", b, a))
+	}
 	if op == "=" {
 		if a.W == 0 {
 			if a.IsTrue() {
@@ -1041,4 +1049,28 @@ func Walk(roots []*Term, seen map[int]bool, f func(*Term)) {
 	for _, r := range roots {
 		rec(r)
 	}
+}
+
+// Render prints a term to the given depth (debugging aid).
+func Render(t *Term, depth int) string {
+	switch t.Op {
+	case "const":
+		return fmt.Sprintf("%#x", t.Val)
+	case "var":
+		return t.Name
+	case "true", "false":
+		return t.Op
+	}
+	if depth == 0 {
+		return "..."
+	}
+	var as []string
+	for _, a := range t.Args {
+		as = append(as, Render(a, depth-1))
+	}
+	op := t.Op
+	if op == "extract" {
+		op = fmt.Sprintf("extract[%d:%d]", t.Val>>8, t.Val&0xff)
+	}
+	return "(" + op + " " + strings.Join(as, " ") + ")"
 }
